@@ -92,6 +92,7 @@ package referenceserver
 //@ spec isTimeoutUnit(c int) bool = c == 'H' || c == 'M' || c == 'S' || c == 'm' || c == 'u' || c == 'n'
 //@ spec specGrpcTimeoutOK(v string) bool = len(v) >= 2 && len(v) <= 9 && isDigits(v[:len(v)-1], 0) && isTimeoutUnit(v[len(v)-1])
 
+//@ spec satNanos(n int) int = n > 9223372036854775807 ? 9223372036854775807 : n
 // A timeout header is accepted exactly when it follows the protocol's grammar, is
 // converted to the exact duration, and is removed from the headers whenever present.
 //@ func extractTimeout
@@ -104,6 +105,29 @@ package referenceserver
 //@   ensures @grpc-grammar (protocol == 2 || protocol == 3) ==> result_1 == (old(hdrHas(headers, "Grpc-Timeout")) && specGrpcTimeoutOK(old(hdrVal(headers, "Grpc-Timeout"))))
 //@   ensures @grpc-removed (protocol == 2 || protocol == 3) && old(hdrHas(headers, "Grpc-Timeout")) ==> !has(headers, canonKey("Grpc-Timeout"))
 //@   ensures @other protocol != 1 && protocol != 2 && protocol != 3 ==> !result_1
+//@   //# gRPC: digits times the unit, saturating at the largest duration when that does not fit
+//@   ensures @grpc-exact-H (protocol == 2 || protocol == 3) && result_1 && old(hdrVal(headers, "Grpc-Timeout"))[len(old(hdrVal(headers, "Grpc-Timeout"))) - 1] == 'H' ==> result_0 == satNanos(decVal(old(hdrVal(headers, "Grpc-Timeout"))[:len(old(hdrVal(headers, "Grpc-Timeout"))) - 1], len(old(hdrVal(headers, "Grpc-Timeout"))) - 1) * 3600000000000)
+//@   ensures @grpc-exact-M (protocol == 2 || protocol == 3) && result_1 && old(hdrVal(headers, "Grpc-Timeout"))[len(old(hdrVal(headers, "Grpc-Timeout"))) - 1] == 'M' ==> result_0 == satNanos(decVal(old(hdrVal(headers, "Grpc-Timeout"))[:len(old(hdrVal(headers, "Grpc-Timeout"))) - 1], len(old(hdrVal(headers, "Grpc-Timeout"))) - 1) * 60000000000)
+//@   ensures @grpc-exact-S (protocol == 2 || protocol == 3) && result_1 && old(hdrVal(headers, "Grpc-Timeout"))[len(old(hdrVal(headers, "Grpc-Timeout"))) - 1] == 'S' ==> result_0 == satNanos(decVal(old(hdrVal(headers, "Grpc-Timeout"))[:len(old(hdrVal(headers, "Grpc-Timeout"))) - 1], len(old(hdrVal(headers, "Grpc-Timeout"))) - 1) * 1000000000)
+//@   ensures @grpc-exact-m (protocol == 2 || protocol == 3) && result_1 && old(hdrVal(headers, "Grpc-Timeout"))[len(old(hdrVal(headers, "Grpc-Timeout"))) - 1] == 'm' ==> result_0 == satNanos(decVal(old(hdrVal(headers, "Grpc-Timeout"))[:len(old(hdrVal(headers, "Grpc-Timeout"))) - 1], len(old(hdrVal(headers, "Grpc-Timeout"))) - 1) * 1000000)
+//@   ensures @grpc-exact-u (protocol == 2 || protocol == 3) && result_1 && old(hdrVal(headers, "Grpc-Timeout"))[len(old(hdrVal(headers, "Grpc-Timeout"))) - 1] == 'u' ==> result_0 == satNanos(decVal(old(hdrVal(headers, "Grpc-Timeout"))[:len(old(hdrVal(headers, "Grpc-Timeout"))) - 1], len(old(hdrVal(headers, "Grpc-Timeout"))) - 1) * 1000)
+//@   ensures @grpc-exact-n (protocol == 2 || protocol == 3) && result_1 && old(hdrVal(headers, "Grpc-Timeout"))[len(old(hdrVal(headers, "Grpc-Timeout"))) - 1] == 'n' ==> result_0 == satNanos(decVal(old(hdrVal(headers, "Grpc-Timeout"))[:len(old(hdrVal(headers, "Grpc-Timeout"))) - 1], len(old(hdrVal(headers, "Grpc-Timeout"))) - 1) * 1)
+//@   option wraps=timeout_=_time.Duration(intVal)_*
+//@   assert_at "return timeout, true"#2: val == atpre(hdrVal(headers, "Grpc-Timeout")) && unit == val[len(val) - 1] && intVal == decVal(val[:len(val) - 1], len(val) - 1)
+//@   assert_at "return timeout, true"#2: unit == 'H' ==> timeout == satNanos(intVal * 3600000000000)
+//@   assert_at "return timeout, true"#2: unit == 'M' ==> timeout == satNanos(intVal * 60000000000)
+//@   assert_at "return timeout, true"#2: unit == 'S' ==> timeout == satNanos(intVal * 1000000000)
+//@   assert_at "return timeout, true"#2: unit == 'm' ==> timeout == satNanos(intVal * 1000000)
+//@   assert_at "return timeout, true"#2: unit == 'u' ==> timeout == satNanos(intVal * 1000)
+//@   assert_at "return timeout, true"#2: unit == 'n' ==> timeout == satNanos(intVal * 1)
+//@   //# cut points: the parsed number, and for each unit that the round trip detects exactly the products that do not fit
+//@   assert_at "if roundTripped != intVal {": intVal >= 0 && intVal == decVal(timeoutStr, len(timeoutStr))
+//@   assert_at "if roundTripped != intVal {": unit == 'H' ==> (intVal * 3600000000000 <= 9223372036854775807 ? (timeout == intVal * 3600000000000 && roundTripped == intVal) : roundTripped != intVal)
+//@   assert_at "if roundTripped != intVal {": unit == 'M' ==> (intVal * 60000000000 <= 9223372036854775807 ? (timeout == intVal * 60000000000 && roundTripped == intVal) : roundTripped != intVal)
+//@   assert_at "if roundTripped != intVal {": unit == 'S' ==> (intVal * 1000000000 <= 9223372036854775807 ? (timeout == intVal * 1000000000 && roundTripped == intVal) : roundTripped != intVal)
+//@   assert_at "if roundTripped != intVal {": unit == 'm' ==> (intVal * 1000000 <= 9223372036854775807 ? (timeout == intVal * 1000000 && roundTripped == intVal) : roundTripped != intVal)
+//@   assert_at "if roundTripped != intVal {": unit == 'u' ==> (intVal * 1000 <= 9223372036854775807 ? (timeout == intVal * 1000 && roundTripped == intVal) : roundTripped != intVal)
+//@   assert_at "if roundTripped != intVal {": unit == 'n' ==> (intVal * 1 <= 9223372036854775807 ? (timeout == intVal * 1 && roundTripped == intVal) : roundTripped != intVal)
 
 //@ func isASCIIDigits
 //@   pure
